@@ -142,11 +142,32 @@ func hbCase(c *h.Case, si *srvInfo, tr string) {
 	}()
 
 	// B is silent: the server must close it (watchdog: 3 x timeout + 10 s; a miss is not this property's business)
+	lag := startLagMonitor()
 	if !B.P.WaitClosed(3*timeout + 10*time.Second) {
+		// no clock: the server's heartbeat timeout did not even fire for a silent session. The clause still
+		// stands on its own: the configured timeout (x3 + 10 s) has passed, A sent only heartbeats without a
+		// valid key for all that time and must be gone — unless this process was starved (scheduler lag).
+		waited := time.Since(start)
+		aOpen, cAlive := !A.P.Closed(), !C.P.Closed()
+		maxLag := lag.stop()
 		close(stop)
-		run.Inconclusive("silent session not closed by the heartbeat timeout")
+		c.Ev("no-clock", "waited_ms", waited.Milliseconds(), "a_open", aOpen, "c_alive", cAlive, "max_sched_lag_ms", maxLag.Milliseconds(), "a_invalid_sent", aSent.Load(), "effective_timeout", si.S.Cfg.Transport.HeartbeatTimeout)
+		if n := aAckOK.Load(); n > 0 {
+			c.Violation("invalid-heartbeat-acknowledged", "[%s/%s] HeartBeats scope on: %d heartbeats without valid key were answered with Pong without error", si.Name, tr, n)
+		}
+		switch {
+		case aOpen && cAlive && maxLag < 2*time.Second:
+			c.Violation("session-with-invalid-heartbeats-outlives-configured-heartbeat-timeout", "[%s/%s] transport.heartbeatTimeout = %d s is configured (effective value in the running server: %d): %v after login the session that sent only heartbeats without a valid key (%d sent, all answered with an error Pong) is still open, and so is a session that sent nothing at all; scheduler lag during the wait at most %v",
+				si.Name, tr, si.HBTimeout, si.S.Cfg.Transport.HeartbeatTimeout, waited.Round(time.Millisecond), aSent.Load(), maxLag.Round(time.Millisecond))
+		case aOpen:
+			run.Inconclusive("heartbeat case: no timeout observed, but the process was starved or the valid session died")
+		default:
+			run.Inconclusive("silent session not closed by the heartbeat timeout")
+		}
+		run.Distinct(fmt.Sprintf("hb|%s|%s|%d|%v|%s|noclock", si.Name, tr, prefixValid, fixedKind, kind0))
 		return
 	}
+	lag.stop()
 	tB := time.Since(start)
 	c.Ev("silent-session-closed", "after_ms", tB.Milliseconds())
 	// A has been sending invalid heartbeats only since prefixValid*250ms: grace = its own timeout again + 10 s
@@ -193,4 +214,42 @@ func hbCase(c *h.Case, si *srvInfo, tr string) {
 	if c.Idx%50 == 0 {
 		run.Sample(map[string]any{"kind": "heartbeat", "server": si.Name, "transport": tr, "key_kind": kind0, "silent_closed_after_ms": tB.Milliseconds(), "invalid_closed_after_ms": tA.Milliseconds()})
 	}
+}
+
+// lagMonitor measures how late a 50 ms ticker fires in this process (load awareness of watchdog verdicts).
+type lagMonitor struct {
+	done chan struct{}
+	res  chan time.Duration
+}
+
+func startLagMonitor() *lagMonitor {
+	m := &lagMonitor{done: make(chan struct{}), res: make(chan time.Duration, 1)}
+	go func() {
+		var worst time.Duration
+		last := time.Now()
+		for {
+			select {
+			case <-m.done:
+				m.res <- worst
+				return
+			case <-time.After(50 * time.Millisecond):
+			}
+			now := time.Now()
+			if d := now.Sub(last) - 50*time.Millisecond; d > worst {
+				worst = d
+			}
+			last = now
+		}
+	}()
+	return m
+}
+
+func (m *lagMonitor) stop() time.Duration {
+	select {
+	case <-m.done:
+		return 0
+	default:
+	}
+	close(m.done)
+	return <-m.res
 }
